@@ -19,7 +19,7 @@ def _group_obligations(sg):
     INFO, WY, NZ = tabvc.load_tables()
     out = []
     entries = NZ.get(sg, [])
-    agg = {"apply.affine": True, "apply.frame": True, "apply.member": True, "apply.letters": True, "apply.proper-in-sohncke": True, "no-error": True}
+    agg = {"apply.affine": True, "apply.frame": True, "apply.member": True, "apply.letters": True, "apply.proper-in-sohncke": True, "apply.snap-is-numerical": True, "no-error": True}
     detail = {}
     sohncke = tabvc.is_sohncke(sg)
     nocc = 0
@@ -90,6 +90,18 @@ def _group_obligations(sg):
             if r != z3.unsat:
                 agg["apply.affine"] = False
                 detail["apply.affine"] = "occupancy %s: positions are not A.x+t (mod 1): %s" % (occ, r)
+        # snapping to the cell face is a numerical clean-up (at most the documented 1e-5 in scaled units), never a displacement of atoms
+        precs = st.ghost.get("wrap_prec", [])
+        if precs:
+            s = z3.Solver()
+            s.set("timeout", 10000)
+            s.add(st.pc)
+            s.add(z3.Or([p > z3.RealVal("1/100000") for p in precs]))
+            r = s.check()
+            if r != z3.unsat:
+                agg["apply.snap-is-numerical"] = False
+                detail["apply.snap-is-numerical"] = "occupancy %s: coordinates closer to a cell face than a tolerance that can exceed 1e-5 are moved onto the face: %s" % (
+                    occ, (str(s.model())[:300] if r == z3.sat else r))
         if sohncke and tabvc.det3(A) != 1:
             agg["apply.proper-in-sohncke"] = False
             detail["apply.proper-in-sohncke"] = "occupancy %s selects entry #%s with det %s in Sohncke group %d" % (occ, idx, tabvc.det3(A), sg)
@@ -219,6 +231,35 @@ def replay(ob):
                 fails.append({"sg": sg, "occupied": extra, "observed": "%s: %s" % (type(e).__name__, str(e)[:200])})
             if len(fails) >= 3:
                 return {"reproduced": True, "failing_inputs": fails}
+    # coordinates close to (but not on) a cell face after the applied normalizer: snapping must stay a numerical clean-up
+    for sg in ([w["sg"]] if "sg" in w else []) + [75, 16, 143, 3, 25]:
+        L = _sym.letters_of(sg)
+        for special in L[:3]:
+            for par in ({"x": 0.5011, "y": 0.21, "z": 0.41}, {"x": 0.13, "y": 0.5011, "z": 0.2511}, {"x": 0.0011, "y": 0.3341, "z": 0.5011}):
+                try:
+                    at = tr.probe(sg, [(L[-1], 8, par), (special, 14, None)])
+                    if len(at) > 250:
+                        continue
+                    a = tr.analyze(at, tol=0.01)
+                    conv = a.get_conventional_system()
+                    if int(a.get_space_group_number()) != sg:
+                        continue
+                    ds = a.get_symmetry_dataset()
+                    T = np.array(a._best_transform["transformation"])
+                    img = (np.array(ds.std_positions) @ T[:3, :3].T + T[:3, 3]) % 1.0
+                    d = conv.get_scaled_positions()[:, None, :] - img[None, :, :]
+                    d = (d + 0.5) % 1.0 - 0.5
+                    bad = []
+                    if np.abs(d).max(axis=2).min(axis=1).max() > 1e-4:
+                        bad.append("atoms are not the standardised atoms moved by the applied normalizer (an atom %.4f from a cell face was moved onto it)" % 0.0011)
+                    d2 = spglib.get_symmetry_dataset((conv.get_cell(), conv.get_scaled_positions(), conv.get_atomic_numbers()), 1e-4)
+                    if d2 is None or d2.number != sg:
+                        bad.append("returned structure has space group %s" % (None if d2 is None else d2.number))
+                    if bad:
+                        fails.append({"sg": sg, "occupied": [L[-1], special], "parameters": par, "symmetry_tol": 0.01, "observed": bad})
+                        return {"reproduced": True, "failing_inputs": fails}
+                except Exception as e:  # noqa
+                    fails.append({"sg": sg, "occupied": [L[-1], special], "observed": "%s: %s" % (type(e).__name__, str(e)[:200])})
     return {"reproduced": bool(fails), "failing_inputs": fails}
 
 
